@@ -53,8 +53,38 @@ def theorems():
     return common.theorems_of('KyupyVerif/Props/C11.lean', 'KV.C11')
 
 
+PRIM_SRC = None
+_prim_tlib = None
+
+
+def prim_entries():
+    """library 'PRIM': the cells ARE the simulation primitives (pins i0..i3 / o; DFF with D, CLK, Q, QN) — for netlists over
+    primitives the unresolved circuit `verilog.parse` returns already has the function of the netlist (C11.verilog_parsed_sem)"""
+    L, src = [], []
+    def add(fam, kind, n_in, prim=None):
+        ins = [f'i{k}' for k in range(n_in)]
+        L.append(cells._entry(fam, [kind], ins, ['o']))
+        src.append(f"{kind} {'input(' + ','.join(ins) + ') ' if ins else ''}output(o) o={prim or kind}({','.join(ins)}) ;")
+    add('BUF', 'BUF1', 1); add('INV', 'INV1', 1)
+    add('CONST0', 'TIEL', 0, '__const0__'); add('CONST1', 'TIEH', 0, '__const1__')
+    for k in (2, 3, 4):
+        for f in ('AND', 'NAND', 'OR', 'NOR', 'XOR', 'XNOR'): add(f'{f}{k}', f'{f}{k}', k)
+    for f, k in (('AO21', 3), ('OA21', 3), ('AOI21', 3), ('OAI21', 3), ('AO22', 4), ('OA22', 4), ('AOI22', 4), ('OAI22', 4),
+                 ('AOI211', 4), ('OAI211', 4)): add(f, f, k)
+    add('MUX2', 'MUX21', 3)
+    L.append(cells._entry('DFF', ['DFF'], ['D'], ['Q', 'QN'], clk='CLK'))
+    src.append('DFF input(D,CLK) output(Q,QN) Q=DFF(D,CLK) QN=INV1(Q) ;')
+    return L, '\n'.join(src) + '\n'
+
+
 def get_tlib(name):
+    global _prim_tlib
     from kyupy import techlib
+    if name == 'PRIM':
+        if _prim_tlib is None:
+            with quiet():
+                _prim_tlib = techlib.TechLib(prim_entries()[1])
+        return _prim_tlib
     return getattr(techlib, name)
 
 
@@ -413,6 +443,271 @@ def correspondence(ck, case, c):
             return
 
 
+# ---------------------------------------------------------------------------------------------- parsed_sem (bench): dump + denotation
+def canonical_dump(c):
+    """`circ.dump_net` without blanks (the answer format of the driver command `netof`)"""
+    def pins(l): return ','.join('-' if x is None else str(x.index) for x in l)
+    nodes = '|'.join(f'{pct(n.kind)}:{pins(n.ins)}:{pins(n.outs)}' for n in c.nodes)
+    lines = '|'.join(f'{l.driver.index}.{l.driver_pin}.{l.reader.index}.{l.reader_pin}' for l in c.lines)
+    io = ','.join(str(n.index) for n in c.io_nodes)
+    return f'{nodes};{lines};{io}'
+
+
+def parsed_sem_dump(ck, case, c):
+    """(a) + guard: `benchNet stmts` (driver `netof b`) == canonical dump of the REAL parsed circuit, character by character;
+    the real parser raises <=> `benchOKB` is false <=> the model sets `err`.  Returns (names, dump, closed) when both built."""
+    toks = enc_bench(case['ast'])
+    try:
+        first = common.run_driver([f'netof b {toks}', f'benchsem {toks} ~'])
+        parts = first[1].split(' ')
+        if len(parts) != 4 or not parts[2].startswith('names='):
+            ck.broken_tie('parsed_sem (bench): driver answer', first[1][:200], inp=_slim(case)); return None
+        okb, closed = parts[0] == 'ok=1', parts[1] == 'closed=1'
+        names = [] if parts[2] == 'names=~' else parts[2][6:].split(',')
+    except Exception as ex:
+        ck.broken_tie('parsed_sem (bench): driver', f'{type(ex).__name__}: {ex}'[:300], inp=_slim(case)); return None
+    ck.hist[f'parsed-sem:bench:benchOKB={int(okb)},benchClosedB={int(closed)}'] += 1
+    st, _, dump = first[0].partition(' ')
+    if c is None:
+        if st == 'ok' or okb:
+            ck.broken_tie('parsed_sem (bench): guard', f'real parser raised, model answered {st}, benchOKB={okb}', inp=_slim(case))
+        return None
+    if st != 'ok' or not okb:
+        ck.broken_tie('parsed_sem (bench): guard', f'real parser built a circuit, model answered {st}, benchOKB={okb}', inp=_slim(case)); return None
+    real = canonical_dump(c)
+    if dump != real:
+        k = next((i for i, (x, y) in enumerate(zip(dump, real)) if x != y), min(len(dump), len(real)))
+        ck.broken_tie('parsed_sem (bench): canonical dump', f'benchNet differs from dump_net of the real circuit at char {k}: '
+                      f'model {dump[max(0, k - 20):k + 30]!r} real {real[max(0, k - 20):k + 30]!r}', inp=_slim(case)); return None
+    ck.hist['parsed-sem:bench:dump-equal'] += 1
+    return names, dump, closed
+
+
+def parsed_sem_bench(ck, case, c):
+    """tie of the `parsed_sem` theorems (Props/C11.lean, section ParsedSem) for one generated bench case:
+    (a) `parsed_sem_dump`;
+    (b) hypotheses: `benchOKB`, `benchClosedB` evaluated by the driver (tags), and — with the real topological order — the
+        hypotheses `wfB`, `orderOKB`, `forksOKB`, `linesDrivenB` of `bench_end_to_end` on the model's net;
+    (c) denotation: the model `sigma` (driver `benchsem`: `benchEval`, accepted by `benchModelB`) observed at the output ports and
+        flip-flop data pins == the generator's own evaluation of the netlist it rendered, on sampled assignments."""
+    r = parsed_sem_dump(ck, case, c)
+    if r is None: return
+    names, dump, closed = r
+    toks = enc_bench(case['ast'])
+    nl = case['nl']
+    pis, ffs, pos = nl['pi'], gen.ff_insts(nl), nl['po']
+    rows = stim_rows(len(pis) + len(ffs), case.get('seed', 0))
+    ncol = rows.shape[1]
+    cols = sorted(set([0, ncol - 1] + [ck.rng.randrange(ncol) for _ in range(14)]))
+    sub = rows[:, cols]
+    # hypotheses of bench_end_to_end on the model net with the real topological order
+    try:
+        order = ','.join(str(n.index) for n in c.topological_order())
+        cert = common.run_driver([f'net {dump}', f'netcert {order}', f'netspeccert {order}'])
+        hyp = cert[1] == 'wf=true order=true' and cert[2] == 'forks=true lines=true'
+        ck.hist[f'parsed-sem:bench:e2e-hyp:{"ok" if hyp else "outside"}'] += 1
+        if not hyp: ck.hist[f'parsed-sem:bench:e2e-hyp-failed:{cert[1]} {cert[2]}'] += 1
+    except Exception as ex:
+        ck.hist['parsed-sem:bench:e2e-hyp:error'] += 1
+    # denotation on sampled assignments
+    m, fm = case['bench_names'], case['bench_ffs']
+    try:
+        ipos = [names.index('f:' + pct(m[b])) for b in pis] + [names.index('c:' + pct(fm[f])) for f in ffs]
+        opos = [names.index('f:' + pct(m[b])) for b in pos] + [names.index('c:' + pct(fm[f])) for f in ffs]
+    except ValueError as ex:
+        ck.broken_tie('parsed_sem (bench): interface positions', f'{ex} (s_nodes names of the model: {names})', inp=_slim(case)); return
+    reqs = []
+    for j in range(sub.shape[1]):
+        a = ['0'] * len(names)
+        for k, p in enumerate(ipos): a[p] = str(int(sub[k, j]))
+        reqs.append(''.join(a))
+    ans = common.run_driver([f"benchsem {toks} {'/'.join(reqs)}"])[0].split(' ')
+    got = ans[3].split('/') if len(ans) == 4 else []
+    exp = truth_table(nl, sub)
+    if len(got) != sub.shape[1]:
+        ck.broken_tie('parsed_sem (bench): driver answer', ' '.join(ans)[:200], inp=_slim(case)); return
+    for j, g in enumerate(got):
+        if g.endswith('!'):
+            ck.broken_tie('parsed_sem (bench): model check', f'benchModelB rejects the environment benchEval computes (assignment {reqs[j]})',
+                          inp=_slim(case)); return
+        obs = [g[p] for p in opos]
+        want = [str(int(exp[k, j])) for k in range(len(opos))]
+        if obs != want:
+            ck.broken_tie('parsed_sem (bench): denotation', f'model sigma observed at outputs/flip-flop data {obs} != generator {want} '
+                          f'(assignment {reqs[j]} over {names})', inp=_slim(case)); return
+    ck.hist['parsed-sem:bench:denotation-rows'] += sub.shape[1]
+    ck.hist['parsed-sem:bench:covered'] += 1
+
+
+# ---------------------------------------------------------------------------------------------- parsed_sem (Verilog fragment)
+def to_fragment(rng, nl):
+    """rewrite a generated netlist into the fragment of `C11.verilog_parsed_sem` (Model/VerilogSem.lean: no assign statements, no
+    constants on pins): every assign pair becomes a buffer instance, every constant a tie cell driving a fresh wire.  The
+    ground truth (`gen.evaluate`) follows the rewritten netlist.  None when the library has no buffer / tie cell."""
+    import copy
+    lib = cells.LIBS[nl['lib']]
+    bufs = [e for e in lib if e['fam'] == 'BUF' and e['kinds']]
+    ties = {0: [e for e in lib if e['fam'] == 'CONST0' and e['kinds']], 1: [e for e in lib if e['fam'] == 'CONST1' and e['kinds']]}
+    if not bufs: return None
+    nl = copy.deepcopy(nl)
+    used = set(nl['bits']) | set(nl['sigs']) | {g['inst'] for g in nl['gates']}
+    cnt = [0]
+
+    def fresh(prefix):
+        while True:
+            cnt[0] += 1
+            n = f'{prefix}{cnt[0]}'
+            if n not in used:
+                used.add(n); return n
+
+    def add_gate(e, args, res):
+        gi = len(nl['gates'])
+        nl['gates'].append({'inst': fresh('fr_u'), 'kind': rng.choice(e['kinds']), 'fam': e['fam'], 'pins_in': e['ins'],
+                            'pins_out': e['outs'], 'clk': None, 'args': args, 'res': res})
+        for k, t in enumerate(res):
+            if t is not None: nl['driven'][t] = ['gate', gi, k]
+
+    def const_wire(c):
+        v = gen.CONST[c]
+        if not ties[v]: raise KeyError('no tie cell')
+        w = fresh('fr_k')
+        nl['sigs'][w] = {'dir': 'wire', 'range': None, 'declared': rng.random() < 0.5}
+        nl['bits'][w] = [w, None]
+        e = rng.choice(ties[v])
+        add_gate(e, [], [w] + [None] * (len(e['outs']) - 1))
+        return w
+    try:
+        for a in nl['assigns']:
+            for t, s_ in zip(a['t'], a['s']):
+                e = rng.choice(bufs)
+                add_gate(e, [const_wire(s_) if s_ in gen.CONST else s_], [t] + [None] * (len(e['outs']) - 1))
+        nl['assigns'] = []
+        for g in nl['gates']:
+            g['args'] = [const_wire(x) if x in gen.CONST else x for x in g['args']]
+    except KeyError:
+        return None
+    return nl
+
+
+def parsed_sem_verilog(ck, case, c):
+    """tie of the Verilog `parsed_sem` theorems (Props/C11.lean, section ParsedSemVerilog) for one generated Verilog case:
+    (a) `verilogNet` (driver `netof v`) == canonical dump of the REAL parsed circuit BEFORE `resolve_tlib_cells` (every case in
+        which both build and every port position is assigned);
+    (b) `verilogOKB` evaluated by the driver (tag coverage) and, for covered cases, the hypotheses `wfB`/`orderOKB`/`forksOKB`/
+        `linesDrivenB` of `verilog_end_to_end` with the real topological order;
+    (c) covered cases in which the hypotheses of (b) hold (every cell kind is known to the simulator): the model `sigma` (driver
+        `verilogsem`: `vEval`, accepted by `vModelB`) observed at output ports and state elements == the REAL LogicSim(m=2) on the
+        real UNRESOLVED circuit (the theorem is about the unresolved netlist, in which a cell means what its kind name means to the
+        simulator), on sampled assignments; for the library of primitives additionally == the generator's ground truth."""
+    kinds = [s_[1] for s_ in case['ast']['stmts'] if s_[0] == 'inst']
+    fix, one = probe_cfg()
+    cfg = f"{1 if case['bf'] else 0}{1 if fix else 0}{1 if one else 0}"
+    table, toks = enc_pintable(get_tlib(case['tlib']), kinds), enc_verilog(case['ast'])
+    try:
+        first = common.run_driver([f'netof v {cfg} {table} {toks}', f'verilogsem {cfg} {table} {toks} ~'])
+        parts = first[1].split(' ')
+        if len(parts) != 3 or not parts[1].startswith('names='):
+            ck.broken_tie('parsed_sem (verilog): driver answer', first[1][:200], inp=_slim(case)); return
+        okv = parts[0] == 'ok=1'
+        names = [] if parts[1] == 'names=~' else parts[1][6:].split(',')
+    except Exception as ex:
+        ck.broken_tie('parsed_sem (verilog): driver', f'{type(ex).__name__}: {ex}'[:300], inp=_slim(case)); return
+    ck.hist[f'parsed-sem:verilog:verilogOKB={int(okv)}'] += 1
+    st, _, dump = first[0].partition(' ')
+    if c is None:
+        if okv: ck.broken_tie('parsed_sem (verilog): guard', 'real parser raised on a module inside verilogOKB', inp=_slim(case))
+        return
+    if st != 'ok':
+        if okv: ck.broken_tie('parsed_sem (verilog): guard', 'model raises on a module inside verilogOKB', inp=_slim(case))
+        return
+    if any(n is None for n in c.io_nodes):
+        ck.hist['parsed-sem:verilog:unassigned-port-position'] += 1; return
+    real = canonical_dump(c)
+    if dump != real:
+        k = next((i for i, (x, y) in enumerate(zip(dump, real)) if x != y), min(len(dump), len(real)))
+        ck.broken_tie('parsed_sem (verilog): canonical dump', f'verilogNet differs from dump_net of the real circuit at char {k}: '
+                      f'model {dump[max(0, k - 20):k + 30]!r} real {real[max(0, k - 20):k + 30]!r}', inp=_slim(case)); return
+    ck.hist['parsed-sem:verilog:dump-equal'] += 1
+    if not okv: return
+    hyp = False
+    try:
+        order = ','.join(str(n.index) for n in c.topological_order())
+        cert = common.run_driver([f'net {dump}', f'netcert {order}', f'netspeccert {order}'])
+        hyp = cert[1] == 'wf=true order=true' and cert[2] == 'forks=true lines=true'
+        cls = 'primitive-library' if case['tlib'] == 'PRIM' else 'cell-library(unresolved)'
+        ck.hist[f'parsed-sem:verilog:e2e-hyp:{cls}:{"ok" if hyp else "outside"}'] += 1
+        if not hyp: ck.hist[f'parsed-sem:verilog:e2e-hyp-failed:{cls}:{cert[1]} {cert[2]}'] += 1
+    except Exception as ex:
+        ck.hist['parsed-sem:verilog:e2e-hyp:error'] += 1
+    # denotation vs the real simulator on the unresolved circuit — where the simulator schedules every line (`linesDrivenB`:
+    # every cell kind is known to its prefix table); elsewhere the unresolved circuit has no simulation to compare with
+    if not hyp:
+        ck.hist['parsed-sem:verilog:denotation-not-compared(kinds unknown to the simulator)'] += 1
+        ck.hist['parsed-sem:verilog:covered'] += 1
+        return
+    snodes = list(c.s_nodes)
+    if [f'c:{pct(n.name)}' for n in snodes] != names:
+        ck.broken_tie('parsed_sem (verilog): s_nodes', f'model {names} != real {[n.name for n in snodes]}', inp=_slim(case)); return
+    assigned = [k for k, n in enumerate(snodes) if n.kind == 'input' or 'dff' in n.kind.lower() or 'latch' in n.kind.lower()]
+    nb = len(assigned)
+    rows = stim_rows(nb, case.get('seed', 0))
+    ncol = rows.shape[1]
+    cols = sorted(set([0, ncol - 1] + [ck.rng.randrange(ncol) for _ in range(10)]))
+    sub = rows[:, cols]
+    tab, err = simulate(c, [snodes[k] for k in assigned], snodes, sub)
+    if tab is None:
+        ck.broken_tie('parsed_sem (verilog): real simulation of the unresolved circuit', str(err), inp=_slim(case)); return
+    reqs = []
+    for j in range(sub.shape[1]):
+        a = ['0'] * len(names)
+        for k, p in enumerate(assigned): a[p] = str(int(sub[k, j]))
+        reqs.append(''.join(a))
+    ans = common.run_driver([f"verilogsem {cfg} {table} {toks} {'/'.join(reqs)}"])[0].split(' ')
+    got = ans[2].split('/') if len(ans) == 3 else []
+    if len(got) != sub.shape[1]:
+        ck.broken_tie('parsed_sem (verilog): driver answer', ' '.join(ans)[:200], inp=_slim(case)); return
+    for j, g in enumerate(got):
+        if g.endswith('!'):
+            ck.broken_tie('parsed_sem (verilog): model check', f'vModelB rejects the environment vEval computes (assignment {reqs[j]})',
+                          inp=_slim(case)); return
+        for k, n in enumerate(snodes):
+            if g[k] == '-': continue            # nothing captured at an input port
+            if g[k] != str(int(tab[k, j])):
+                ck.broken_tie('parsed_sem (verilog): denotation', f'model sigma observed at {n.name!r}: {g[k]} != real LogicSim on the '
+                              f'unresolved circuit: {int(tab[k, j])} (assignment {reqs[j]} over {names})', inp=_slim(case)); return
+    ck.hist['parsed-sem:verilog:denotation-rows'] += sub.shape[1]
+    ck.hist['parsed-sem:verilog:covered'] += 1
+    if case['tlib'] != 'PRIM': return
+    # library of primitives: the denotation IS the function of the netlist — compare with the generator's own evaluation
+    nl = case['nl']
+    pis, ffs, pos = nl['pi'], gen.ff_insts(nl), nl['po']
+    try:
+        ipos = [names.index('c:' + pct(b)) for b in pis] + [names.index('c:' + pct(f)) for f in ffs]
+        opos = [names.index('c:' + pct(b)) for b in pos] + [names.index('c:' + pct(f)) for f in ffs]
+    except ValueError as ex:
+        ck.broken_tie('parsed_sem (verilog): interface positions', f'{ex} (s_nodes names of the model: {names})', inp=_slim(case)); return
+    rows2 = stim_rows(len(pis) + len(ffs), case.get('seed', 0))
+    cols2 = sorted(set([0, rows2.shape[1] - 1] + [ck.rng.randrange(rows2.shape[1]) for _ in range(10)]))
+    sub2 = rows2[:, cols2]
+    reqs2 = []
+    for j in range(sub2.shape[1]):
+        a = ['0'] * len(names)
+        for k, p in enumerate(ipos): a[p] = str(int(sub2[k, j]))
+        reqs2.append(''.join(a))
+    ans2 = common.run_driver([f"verilogsem {cfg} {table} {toks} {'/'.join(reqs2)}"])[0].split(' ')
+    got2 = ans2[2].split('/') if len(ans2) == 3 else []
+    exp2 = truth_table(nl, sub2)
+    if len(got2) != sub2.shape[1]:
+        ck.broken_tie('parsed_sem (verilog): driver answer', ' '.join(ans2)[:200], inp=_slim(case)); return
+    for j, g in enumerate(got2):
+        obs = [g[p] for p in opos]
+        want = [str(int(exp2[k, j])) for k in range(len(opos))]
+        if g.endswith('!') or obs != want:
+            ck.broken_tie('parsed_sem (verilog): denotation vs generator', f'model sigma observed {obs} != generator {want} '
+                          f'(assignment {reqs2[j]} over {names})', inp=_slim(case)); return
+    ck.hist['parsed-sem:verilog:ground-truth-rows'] += sub2.shape[1]
+
+
 def _slim(case):
     return {k: v for k, v in case.items() if not k.startswith('_')}
 
@@ -674,8 +969,12 @@ def make_cases(rng, notes):
     """one netlist -> several cases (renderings)"""
     r = rng.random()
     bench_only = r < 0.3
-    lib = rng.choice(VLIBS + (['BENCH'] if bench_only else []))
+    lib = rng.choice(VLIBS + ['PRIM', 'PRIM'] + (['BENCH'] if bench_only else []))
     nl = gen.gen_netlist(rng, lib, bench_only=bench_only)
+    if lib != 'BENCH' and rng.random() < 0.25:     # a netlist without assign statements and constants: assigns as buffers, constants as tie cells
+        nl2 = to_fragment(rng, nl)
+        if nl2 is not None:
+            nl = nl2; notes['netlists rewritten into the parsed_sem fragment'] = notes.get('netlists rewritten into the parsed_sem fragment', 0) + 1
     out = []
     seed = rng.randint(0, 2 ** 31 - 1)
     base = {'nl': nl, 'seed': seed, 'tlib': lib}
@@ -713,6 +1012,8 @@ def run_netlist(ck, nl, cases, notes):
         except Exception as ex:
             c = None
         correspondence(ck, case, c)
+        if case['fmt'] == 'bench': parsed_sem_bench(ck, case, c)
+        else: parsed_sem_verilog(ck, case, c)
         if case['fmt'] in TEXT_FMTS: text_stream(ck, case, 2 if case['fmt'] == 'verilog' else 3, real=(c,))
         try:
             ok, obs, exp = eval_case(case)
@@ -895,6 +1196,7 @@ def odd_stream(ck, n, notes):
             except Exception as ex:
                 c = None; status = 'raises'
             correspondence(ck, odd, c)
+            if odd['fmt'] == 'bench': parsed_sem_dump(ck, odd, c)
             if odd['fmt'] in TEXT_FMTS: text_stream(ck, odd, 1, real=(c,))
             ck.case(key=('odd', odd['fmt'], odd['text']), nontrivial=False, tag=[f'odd:{label}:{status}', 'stream:odd'])
             done += 1
@@ -923,8 +1225,10 @@ def probes(ck, notes):
 def run(ck):
     ck.prove([], TARGETS, theorems())
     notes = {}
+    for k in ('BENCH', 'PRIM'): cells.LIBS.pop(k, None)        # synthetic libraries of an earlier run in this process (drift re-runs)
     for p in cells.catalog_check(): notes['datasheet vs library pin table: ' + p] = 1
     cells.LIBS.setdefault('BENCH', bench_lib())
+    cells.LIBS.setdefault('PRIM', prim_entries()[0])
     for case in corpus_cases():
         run_netlist(ck, case['nl'], [case], notes)
     for fmt, texts in TEXT_PROBES.items():       # fixed lexer / grammar corner cases: model vs lark vs the real parser
@@ -968,6 +1272,7 @@ def bench_lib():
 
 def replay(rep):
     cells.LIBS.setdefault('BENCH', bench_lib())
+    cells.LIBS.setdefault('PRIM', prim_entries()[0])
     inp = rep['input']
     if 'cases' in inp:
         res = [eval_case(c) for c in inp['cases']]
